@@ -164,6 +164,12 @@ HARNESS_FILES = {
     "stamp": {
         "internal/persistence/jsondb/zz_verif_stamp_hooks.go": "go/hooks/jsondb_stamp_hooks_verif.go",
     },
+    "cache": {
+        "internal/persistence/filecache/zz_verif_hooks.go": "go/hooks/filecache_hooks_verif.go",
+    },
+    "execs": {
+        "internal/dag/scheduler/zz_verif_hooks.go": "go/hooks/dagscheduler_hooks_verif.go",
+    },
 }
 
 
